@@ -9,3 +9,14 @@ Definition start (existing : bool) : dstate := {| dentry := if existing then Som
 Definition predict (kind : nat) (existing : bool) (k : nat) : Z :=
   enc (visible (exec_killed (start existing) (match kind with 0 => Delete | _ => Write OTmpFile 2 end) k)).
 Definition case_ok (c : nat * bool * nat * Z) : bool := match c with (kind, ex, k, z) => Z.eqb (predict kind ex k) z end.
+
+(* DeleteObject in a versioning-enabled bucket (Model/CrashVersions.v): the key held version 1 with data 7, the marker's id is 2;
+   k = number of steps completed; observed: does the key still read the old data, is version 1 still shown with its data *)
+From VGW Require Import Model.CrashVersions.
+Definition vstart : vstate := {| current := {| c_data := 7; c_vid := 1; c_marker := false |}; archive := [] |}.
+Definition vcase_ok (c : nat * bool * bool) : bool :=
+  match c with (k, reads_old, listed) =>
+    let s' := run_killed (delete_steps 2) vstart k in
+    Bool.eqb reads_old (match reads s' with Some 7 => true | _ => false end) &&
+    Bool.eqb listed (existsb (fun e => Nat.eqb (fst e) 1 && Nat.eqb (snd e) 7) (shown s'))
+  end.
